@@ -118,8 +118,10 @@ def eligible(h) -> bool:
   n = h.node
   if h.is_lambda or not isinstance(n, ast.FunctionDef):
     return False
-  if h.cls is not None or '.' in h.qualname[len(h.module.name) + 1:]:
-    return False  # methods and nested functions are not expanded
+  if h.cls is None and '.' in h.qualname[len(h.module.name) + 1:]:
+    return False  # nested functions are not expanded
+  if h.cls is not None and not (n.args.args and n.args.args[0].arg == 'self'):
+    return False
   if n.decorator_list or n.args.vararg or n.args.kwarg:
     return False
   if h.name in known_names() or h.name.lstrip('_') in known_names():
@@ -133,6 +135,9 @@ def eligible(h) -> bool:
     if isinstance(x, ast.Call) and isinstance(x.func, ast.Name) and (
         x.func.id == h.name):
       return False
+    if isinstance(x, ast.Call) and isinstance(x.func, ast.Attribute) and (
+        x.func.attr == h.name):
+      return False
   for x in ast.walk(n):
     if x is not n and isinstance(x, (ast.FunctionDef, ast.AsyncFunctionDef,
                                      ast.Lambda, ast.ClassDef)):
@@ -145,9 +150,14 @@ def _bind(h, call) -> Optional[Dict[str, ast.expr]]:
   params = [x.arg for x in a.posonlyargs + a.args]
   kwonly = [x.arg for x in a.kwonlyargs]
   out: Dict[str, ast.expr] = {}
+  if h.cls is not None:
+    params = params[1:]  # self stays self
   if any(isinstance(x, ast.Starred) for x in call.args) or any(
       k.arg is None for k in call.keywords):
     return None
+  if any(isinstance(x, (ast.Lambda, ast.NamedExpr, ast.Yield, ast.YieldFrom,
+                        ast.Await)) for x in ast.walk(call)):
+    return None  # lambdas are indexed by node identity; keep them in place
   if len(call.args) > len(params):
     return None
   for p_, v in zip(params, call.args):
@@ -226,19 +236,38 @@ def _fix(node, at):
 
 class Inliner:
 
-  def __init__(self, project):
+  def __init__(self, project, callers=None):
     self.p = project
+    self.callers = callers  # None: every function; else qualname prefixes
     self.count = 0
     self.sites: List[str] = []
 
   def _callee(self, call, scope):
+    fn = call.func
+    if isinstance(fn, ast.Attribute) and isinstance(
+        fn.value, ast.Name) and fn.value.id == 'self':
+      # self._helper(...) inside a method of the same class
+      m, cls = scope, None
+      while m is not None:
+        if getattr(m, 'cls', None) is not None:
+          cls = m.cls
+          break
+        m = getattr(m, 'parent', None)
+      h = cls.methods.get(fn.attr) if cls is not None else None
+      if h is None or h is scope or not eligible(h):
+        return None
+      return h
     try:
       q = self.p.resolve(call.func, scope)
     except Exception:  # pylint: disable=broad-except
       return None
     h = self.p.funcs.get(q) if q else None
+    if h is not None and h.cls is not None:
+      return None
     if h is None or h is scope or not eligible(h):
       return None
+    if h.module is not scope.module:
+      return None  # free names of the body resolve in the helper's module
     return h
 
   # ---- expression helpers
@@ -293,6 +322,7 @@ class Inliner:
       return None
     tag = '__' + h.name.strip('_')
     ren = {n: n + tag for n in _locals_of(h.node) | set(b)}
+    ren.pop('self', None)
     holder = ast.Module(body=body, type_ignores=[])
     _Rename(ren).visit(holder)
     body = holder.body
@@ -351,6 +381,10 @@ class Inliner:
   def run(self):
     order = [f for f in self.p.funcs.values()
              if not f.is_lambda and isinstance(f.node, ast.FunctionDef)]
+    if self.callers is not None:
+      order = [f for f in order if any(
+          f.qualname == q or f.qualname.startswith(q + '.') or
+          q.startswith(f.qualname + '.') for q in self.callers)]
     for _ in range(2):
       before = self.count
       for f in order:
